@@ -3,6 +3,7 @@ import TongoProofs.Lemmas.BitStringRound
 import TongoProofs.Lemmas.MinBitsGen
 import TongoProofs.Lemmas.BitStringFift
 import TongoProofs.Lemmas.BitStringCanon
+import TongoProofs.Lemmas.BitStringTopUp
 /-! Property C06 — bit-string and cell read/write primitives behave like an ideal bit list.
 Property theorems only; helper lemmas live in `TongoProofs/Lemmas/BitString*.lean`.
 
@@ -288,6 +289,30 @@ with zero padding — the bytes `Buffer()` / `bocReprWithoutRefs` expose and the
 abstract bits. Together with `inv_all_ops` and `readBits_refines`: equal bits ⇒ equal data bytes. -/
 theorem canonical_buffer (s : BitString) (hi : Inv s) : s.buf.take ((s.len + 7) / 8) = bitsToBytes (abs s) :=
   buf_take_eq_bitsToBytes s hi
+
+/-! ## Topped-up arrays and parsed cells -/
+
+/-- `GetTopUppedArray()` returns the canonical topped-up bytes of the written bits (data, then the completion tag
+`1 0…0` up to a byte boundary, nothing when aligned) whenever the tag fits into the capacity. -/
+theorem getTopUppedArray_spec (s : BitString) (hi : Inv s) (hroom : (s.len + 7) / 8 * 8 ≤ s.cap) :
+    getTopUppedArray s = .ok (toppedUp (abs s)) := getTopUppedArray_eq s hi hroom
+
+/-- `SetTopUppedArray` inverts it: from the canonical topped-up bytes of `l` it recovers exactly `l`. -/
+theorem setTopUppedArray_spec (l : List Bool) (s0 : BitString) :
+    ∃ s', BitString.setTopUppedArray (toppedUp l) (l.length % 8 == 0) s0 = (.ok (), s') ∧ s'.len = l.length ∧
+      (bytesToBits s'.buf).take s'.len = l := by
+  obtain ⟨s', hs, hl, _, _, _, hb⟩ := setTopUppedArray_toppedUp l s0
+  exact ⟨s', hs, hl, by rw [hb, hl, List.take_append_of_le_length (Nat.le_refl _), List.take_length]⟩
+
+/-- `parsed_cell_inv` (the repair of defect 8 in general): the repaired `Cell.setTopUppedArray` applied to the canonical
+data bytes of any ≤ 1023 bits succeeds, recovers the bits and establishes the invariant with capacity 1023 — hence by
+`no_panic` / `ops_sequence` every operation on a parsed cell behaves like on the ideal bit list. -/
+theorem parsed_cell_inv (l : List Bool) (hl : l.length ≤ 1023) :
+    (MCell.setTopUppedArray (toppedUp l) (l.length % 8 == 0)).1 = .ok () ∧
+    abs (MCell.setTopUppedArray (toppedUp l) (l.length % 8 == 0)).2 = l ∧
+    Inv (MCell.setTopUppedArray (toppedUp l) (l.length % 8 == 0)).2 ∧
+    (MCell.setTopUppedArray (toppedUp l) (l.length % 8 == 0)).2.cap = 1023 :=
+  MCell.setTopUppedArray_inv l hl
 
 /-! ## Fift hex -/
 
